@@ -22,7 +22,8 @@ def lit_str(s):
 
 MINIMAL = False      # print with the fewest parentheses the documented precedence table allows
 
-PREC = {'||': 1, '&&': 2, '<': 3, '<=': 3, '>': 3, '>=': 3, '==': 3, '!=': 3, '+': 7, '-': 7, '*': 8, '/': 8, '%': 8}
+PREC = {'||': 1, '^': 1, '&&': 2, '<': 3, '<=': 3, '>': 3, '>=': 3, '==': 3, '!=': 3, '|': 4, '&': 4, 'xor': 5,
+        '<<': 6, '>>': 6, '+': 7, '-': 7, '*': 8, '/': 8, '%': 8}
 
 
 def pe_min(e, ctx=0, right=False):
@@ -286,6 +287,18 @@ class Model:
                 return self.ev(e[2], act) or self.ev(e[3], act)
             a = self.ev(e[2], act)
             b = self.ev(e[3], act)
+            if op == '^':
+                return bool(a) != bool(b)
+            if op == '&':
+                return self.chk(a & b)
+            if op == '|':
+                return self.chk(a | b)
+            if op == 'xor':
+                return self.chk(a ^ b)
+            if op in ('<<', '>>'):
+                if b < 0 or b >= 32:
+                    raise Discard("shift amount out of range")       # C05's subject
+                return self.chk(a * (2 ** b) if op == '<<' else a >> b)
             if op == '+':
                 if isinstance(a, str) or isinstance(b, str):
                     v = fmt(a) + fmt(b)
@@ -1046,29 +1059,37 @@ def precedence_programs():
     """sys-prec family (rendered with minimal parentheses): every well-typed pair of binary operators in both
     tree shapes, plus the unary operators against each binary level, over variable and literal operands, with
     operand values for which the two possible groupings differ."""
-    AR, CMP, LOG = ['+', '-', '*', '/', '%'], ['<', '<=', '>', '>=', '==', '!='], ['&&', '||']
-    INTS = [(7, 3, 2), (2, 7, 3), (-8, 3, 2), (9, -5, 4)]
+    AR, CMP, LOG = ['+', '-', '*', '/', '%'], ['<', '<=', '>', '>=', '==', '!='], ['&&', '||', '^']
+    BIT = ['&', '|', 'xor', '<<', '>>']
+    INTS = [(7, 3, 2), (2, 7, 3), (-8, 3, 2), (9, -5, 4), (12, 5, 1)]
     BOOLS = [(a, b, c) for a in (True, False) for b in (True, False) for c in (True, False)]
     out = []
 
     def prog(shape, make, ityped, btyped):
-        """make(leaf) -> expression, leaf(kind, i) -> operand i of kind 'i'|'b'."""
+        """make(leaf) -> expression, leaf(kind, i) -> operand i of kind 'i'|'b'.  Operand triples for which the
+        expression is not defined (zero divisor, overflow, shift amount out of range) are left out: those
+        failures are C05's subject and a literal one would be refused at compile time."""
         stmts = []
         for lit in (False, True):
             for iv in (INTS if ityped else [(0, 0, 0)]):
                 for bv in (BOOLS if btyped else [(False,) * 3]):
+                    litleaf = lambda kd, j, iv=iv, bv=bv: ('int', iv[j]) if kd == 'i' else ('bool', bv[j])
+                    try:
+                        Model([], ()).ev(make(litleaf), [{}])
+                    except (Failure, Discard):
+                        continue
                     if not lit:
                         for j in range(3):
                             if ityped:
                                 stmts.append(('assign', 'x%d' % j, ('int', iv[j])))
                             if btyped:
                                 stmts.append(('assign', 'p%d' % j, ('bool', bv[j])))
-                    leaf = (lambda kd, j, iv=iv, bv=bv, lit=lit:
-                            (('int', iv[j]) if kd == 'i' else ('bool', bv[j])) if lit else ('var', ('x%d' if kd == 'i' else 'p%d') % j))
+                    leaf = litleaf if lit else (lambda kd, j: ('var', ('x%d' if kd == 'i' else 'p%d') % j))
                     e = make(leaf)
                     stmts.append(('assign', 'res', e))
                     stmts.append(('print', ('var', 'res')))
-        out.append((stmts, False, ["sys-prec"] + shape))
+        if stmts:
+            out.append((stmts, False, ["sys-prec"] + shape))
 
     I = lambda l, j: l('i', j)
     B = lambda l, j: l('b', j)
@@ -1096,6 +1117,17 @@ def precedence_programs():
         prog([a, 'neg', "right"], lambda l, a=a: ('bin', a, I(l, 0), ('neg', I(l, 1))), True, False)
         if a in AR:
             prog(['neg', a, "whole"], lambda l, a=a: ('neg', ('bin', a, I(l, 0), I(l, 1))), True, False)
+    for a in BIT:
+        for b in BIT + AR:
+            prog([a, b, "L"], lambda l, a=a, b=b: ('bin', b, ('bin', a, I(l, 0), I(l, 1)), I(l, 2)), True, False)
+            prog([a, b, "R"], lambda l, a=a, b=b: ('bin', a, I(l, 0), ('bin', b, I(l, 1), I(l, 2))), True, False)
+            if b in AR:
+                prog([b, a, "L"], lambda l, a=a, b=b: ('bin', a, ('bin', b, I(l, 0), I(l, 1)), I(l, 2)), True, False)
+                prog([b, a, "R"], lambda l, a=a, b=b: ('bin', b, I(l, 0), ('bin', a, I(l, 1), I(l, 2))), True, False)
+        for c in CMP:
+            prog([a, c, "L"], lambda l, a=a, c=c: ('bin', c, ('bin', a, I(l, 0), I(l, 1)), I(l, 2)), True, False)
+            prog([c, a, "R"], lambda l, a=a, c=c: ('bin', c, I(l, 0), ('bin', a, I(l, 1), I(l, 2))), True, False)
+        prog(['neg', a, "operand"], lambda l, a=a: ('bin', a, ('neg', I(l, 0)), I(l, 1)), True, False)
     for a in AR:   # string concatenation next to arithmetic: "s" + a * b, "s" + a + b, a + b + "s"
         prog(['str+', a, "R"], lambda l, a=a: ('bin', '+', ('str', "s"), ('bin', a, I(l, 0), I(l, 1))), True, False)
         prog(['str+', a, "L"], lambda l, a=a: ('bin', a if a == '+' else '+', ('bin', '+', ('str', "s"), I(l, 0)), I(l, 1)) if a == '+'
